@@ -94,6 +94,13 @@ Theorem C06_positions_before_begin_raise : forall st,
 Proof. exact positions_before_begin_raise. Qed.
 Print Assumptions C06_positions_before_begin_raise.
 
+(* the public constructor fixed_vector(capacity, range) with a range longer than the capacity raises and no object
+   exists afterwards (the same holds with another fixed_vector as the range: operation OConstructFrom) *)
+Theorem C06_constructor_that_does_not_fit_leaves_no_object : forall P i c xs, i < length P -> c < length xs ->
+  pstep None (ONewFrom i c xs) P = (pset P i None, Raised).
+Proof. exact constructor_that_does_not_fit. Qed.
+Print Assumptions C06_constructor_that_does_not_fit_leaves_no_object.
+
 Theorem C06_failed_single_op_unchanged : forall st, WInv st ->
   (forall p v st', nonfresh v -> append p v st = (st', Raised) -> st' = st) /\
   (forall p key v st', nonfresh v -> emplace p key v st = (st', Raised) -> st' = st) /\
